@@ -131,3 +131,38 @@ func VerifOuterCancel() {
 	stop()
 	zzverif.Cover("outer_cancel_done")
 }
+
+// A reader whose context is cancelled while it is acquiring: RLock either admits it (and it then releases) or reports
+// an error - and an acquisition that reported an error holds nothing: the next writer is granted at once, without the
+// grace period passing (the clock does not move), and a reader after that is admitted too.
+//
+//verif:harness prop=C13 name=outer_cancel_failed_rlock_holds_nothing threads=8 sched=delay preempt=3 t_preempt=4 unwind=10 witness=lenient
+func VerifOuterCancelFailedRLock() {
+	start := zzverif.TimeFromNanos(1_000_000_000_000)
+	vClk = zzverifstubs.NewClock(start)
+	o := NewOuterCancel(errOuter, 5*time.Second)
+	runCtx, stop := context.WithCancel(context.Background())
+	go o.Run(runCtx)
+	ctx, cancel := context.WithCancel(context.Background())
+	go cancel() // at any point of the acquisition
+	_, rc, err := o.RLock(ctx)
+	if err == nil {
+		rc()
+	} else {
+		zzverif.Assert(rc == nil, "failed_acquisition_returns_no_release_function")
+	}
+	wdone := make(chan struct{}, 1)
+	go func() {
+		zzverif.MustFinish() // without any clock advance: nobody holds the lock
+		unlock := o.Lock()
+		unlock()
+		wdone <- struct{}{}
+	}()
+	<-wdone
+	_, rc2, err2 := o.RLock(context.Background())
+	zzverif.Assert(err2 == nil, "reader_admitted_after_writer_left")
+	rc2()
+	cancel()
+	stop()
+	zzverif.Cover("outer_cancel_failed_rlock_done")
+}
